@@ -343,6 +343,7 @@ func checkC19(x *X, c c19Case) error {
 		if bad {
 			continue
 		}
+		x.SubEval()
 		if base.Err != "" {
 			x.Class("error:" + k)
 			continue
@@ -552,7 +553,7 @@ func TestC19(t *testing.T) {
 			c19Prop.One(t, c19Case{Src: "corpus", Path: f, Kinds: kinds, Runs: 3, Procs: 2})
 		}
 	})
-	t.Run("repeat", func(t *testing.T) { c19Prop.Run(t, scale(c19N(18), 400)) })
+	t.Run("repeat", func(t *testing.T) { c19Prop.Run(t, scale(c19N(18), 300)) })
 	t.Run("cli", func(t *testing.T) { c19CLIProp.Run(t, scale(10, 120)) })
 }
 
